@@ -221,6 +221,10 @@ class AsyncSocks5Connection(AsyncConnectionInterface):
 
         async with self._connect_lock:
             if self._connection is None:
+                if self._connect_failed:
+                    # Another request failed to establish this connection while we
+                    # were waiting, and the pool has dropped it.
+                    raise ConnectionNotAvailable()
                 stream: AsyncNetworkStream | None = None
                 try:
                     # Connect to the proxy
